@@ -87,6 +87,8 @@ pub struct Model {
     pub next_name: u32,
     /// an API call returned an ID that is already held for another live entity
     pub duplicate_ids: Vec<String>,
+    /// number of `EncodeNow` operations so far (an encoding in the middle of a history)
+    pub encodes: u32,
 }
 
 fn mx(e: &[RawExpr]) -> Vec<MExpr> {
@@ -410,6 +412,12 @@ pub enum Op {
     },
     AddExportMem(u32),
     AddData { mem: Option<u32> },
+    /// `module.encode()` in the middle of the history, output discarded: encoding must not change what
+    /// the IDs the caller holds mean, nor what later edits do
+    EncodeNow,
+    /// `module.pull_side_effects()` in the middle of the history, report discarded: like an encoding, it
+    /// must not change what later edits and the final encoding do
+    PullNow,
 }
 
 fn one() -> u8 {
@@ -418,8 +426,11 @@ fn one() -> u8 {
 
 /// The ways injected code reaches a function. 0/1 are the plain "before instruction 2" paths; the
 /// others put the same code at the same place through the after and alternate lists and through the
-/// function-entry special mode, which the encoder remaps and emits separately.
-pub const INJECT_APIS: &[&str] = &["iter", "modifier", "modifier-after", "modifier-alt", "iter-alt", "modifier-fn-entry", "iter-after"];
+/// function-entry special mode, which the encoder remaps and emits separately. 7/8 attach the code as
+/// `after` code (modifier / iterator) to the first ORIGINAL instruction of the function that itself
+/// carries a function / global / memory index: an instruction with instrumentation is emitted on
+/// another path than one without.
+pub const INJECT_APIS: &[&str] = &["iter", "modifier", "modifier-after", "modifier-alt", "iter-alt", "modifier-fn-entry", "iter-after", "modifier-after-ref-op", "iter-after-ref-op"];
 
 impl Op {
     pub fn kind_name(&self) -> String {
@@ -465,6 +476,8 @@ impl Op {
             }
             Op::AddExportMem(_) => "AddExportMem".into(),
             Op::AddData { mem } => format!("AddData.{}", if mem.is_some() { "active" } else { "passive" }),
+            Op::EncodeNow => "EncodeNow".into(),
+            Op::PullNow => "PullNow".into(),
         }
     }
 }
@@ -555,6 +568,36 @@ fn inject_before<'a>(module: &mut Module<'a>, owner: u32, api: u8, ops: Vec<Oper
             }
             for op in ops {
                 it.inject(op);
+            }
+        }
+        7 | 8 => {
+            // the first original instruction that refers to an entity (`after` code: `before` code would
+            // separate it from its site marker)
+            let body = &module.functions.get(FunctionID(owner)).unwrap_local().body;
+            let ref_idx = (2..body.instructions.len()).find(|i| !op_refs(&body.instructions[*i].op).1.is_empty());
+            match ref_idx {
+                Some(ri) if api == 7 => {
+                    let mut fm = module.functions.get_fn_modifier(FunctionID(owner)).expect("library: get_fn_modifier refuses a function the model holds as local");
+                    fm.after_at(at(ri));
+                    for op in ops {
+                        fm.inject(op);
+                    }
+                }
+                Some(ri) => {
+                    let mut it = ModuleIterator::new(module, &vec![]);
+                    walk_to(&mut it, ri);
+                    it.after();
+                    for op in ops {
+                        it.inject(op);
+                    }
+                }
+                None => {
+                    let mut fm = module.functions.get_fn_modifier(FunctionID(owner)).expect("library: get_fn_modifier refuses a function the model holds as local");
+                    fm.before_at(at(2));
+                    for op in ops {
+                        fm.inject(op);
+                    }
+                }
             }
         }
         5 => {
@@ -828,6 +871,14 @@ pub fn apply<'a>(op: &Op, module: &mut Module<'a>, model: &mut Model) {
             model.next_name += 1;
             module.exports.add_export_mem(format!("xm{}", n), *h, None);
             model.exports.push(MExport { name: format!("xm{}", n), kind: "memory".into(), target: *h, live: true });
+        }
+        Op::EncodeNow => {
+            let _ = module.encode();
+            model.encodes += 1;
+        }
+        Op::PullNow => {
+            let _ = module.pull_side_effects();
+            model.encodes += 1;
         }
         Op::AddData { mem } => {
             let k = model.next_const;
